@@ -108,6 +108,12 @@ def handle : List String → Option String
       let s0 ← (if start = "open" then some (Ws.start c) else if start = "connecting" then some (startConnecting c) else none)
       let ops ← ops.mapM parseOp
       pure (String.intercalate "|" (runOps s0 ops))
+  | "ws.ops" :: cfg :: start :: ops => do
+      -- the history variable `sentOps` (opcode of every frame the engine produced) after the whole script
+      let c ← parseCfg cfg
+      let s0 ← (if start = "open" then some (Ws.start c) else if start = "connecting" then some (startConnecting c) else none)
+      let ops ← ops.mapM parseOp
+      pure (String.intercalate "," ((run s0 ops).sentOps.map toString) ++ "@" ++ stStr (run s0 ops).st)
   | ["ws.judge", cfg, h] => do
       let c ← parseCfg cfg
       let (evs, v, rest) := WsSpec.judge (WsSpec.Ctx.ofCfg c) (← Hex.decode h)
